@@ -6,7 +6,7 @@ ENGINES = {
     'mtsim': {'sources': ['mtsim.c'], 'plain_sources': ['mtwrap.c'],
               'wraps': ['pthread_mutex_init', 'pthread_mutex_lock', 'pthread_mutex_unlock', 'pthread_mutex_destroy', 'atexit']},
     'protosim': {'sources': ['protosim.c', 'channel.c', 'proto_bake.c', 'proto_sm.c', 'proto_cvc.c'], 'common_sources': ['b2util.c']},
-    'faultcall': {'sources': ['faultcall.c', 'fc_belt.c', 'fc_misc.c', 'fc_bign.c', 'fc_proto.c', 'fc_math.c', 'fc_math2.c', 'fc_ww.c', 'fc_util.c', 'fc_other.c', 'fc_der.c', 'fc_params.c', 'fc_rng.c'], 'plain_sources': ['fc_exit.c'], 'wraps': ['atexit'], 'common_sources': ['b2util.c']},
+    'faultcall': {'sources': ['faultcall.c', 'fc_belt.c', 'fc_misc.c', 'fc_bign.c', 'fc_proto.c', 'fc_math.c', 'fc_math2.c', 'fc_ww.c', 'fc_util.c', 'fc_other.c', 'fc_der.c', 'fc_params.c', 'fc_rng.c', 'fc_sm.c'], 'plain_sources': ['fc_exit.c'], 'wraps': ['atexit'], 'common_sources': ['b2util.c']},
 }
 
 REAL_ALL = ['all of /repo/src compiled from the current working tree with -DBEE2_VERIF']
